@@ -96,6 +96,25 @@ def qe_values(d, wave_nm):
     return np.interp(wave_nm, d["w_nm"], d["v"], left=0.0, right=0.0)
 
 
+def qe_slack(d, wave_nm):
+    """absolute uncertainty of a spectrum efficiency at each sampled wavelength: the wavelength reaches the
+    interpolator through unit conversions (a few ulps), and a steep efficiency curve (knots a fraction of a nm apart)
+    turns that into |slope| x 8 eps x wavelength"""
+    wave_nm = np.asarray(wave_nm, dtype=float)
+    if d["kind"] != "spectrum":
+        return np.zeros(len(wave_nm))
+    w, v = np.asarray(d["w_nm"], dtype=float), np.asarray(d["v"], dtype=float)
+    if len(w) < 2:
+        return np.zeros(len(wave_nm))
+    slope = np.abs(np.diff(v) / np.diff(w))
+    out = np.zeros(len(wave_nm))
+    for i, x in enumerate(wave_nm):
+        j = int(np.searchsorted(w, x))
+        near = slope[max(j - 2, 0):j + 1]
+        out[i] = (near.max() if near.size else 0.0) * 8 * np.finfo(float).eps * x
+    return out
+
+
 @st.composite
 def charge_case(draw, tier):
     nw = draw(st.integers(1, 6))
@@ -145,7 +164,8 @@ def collect_charge(case, ctx):
     exp = np.zeros(img.shape[1:])
     for i in range(len(wave_nm)):
         exp += img[i] * q[i]
-    if out.shape != exp.shape or np.max(np.abs(out - exp)) > 1e-11 * (np.max(np.abs(exp)) + 1e-300) + 1e-300:
+    slack = float(np.max(np.tensordot(qe_slack(d, wave_nm), np.abs(np.asarray(img, dtype=float)), axes=1)))
+    if out.shape != exp.shape or np.max(np.abs(out - exp)) > 1e-11 * (np.max(np.abs(exp)) + 1e-300) + slack + 1e-300:
         raise Violation("C16.charge.value", f"collect_charge(qe {d['kind']}"
                                             f"{' in ' + d['unit'] if d['kind'] == 'spectrum' else ''}, wave in {wu}) differs "
                                             f"from sum(photons x QE): max {np.max(np.abs(out - exp)):.3e}")
@@ -220,7 +240,8 @@ def bayer(case, ctx):
             exp[r, c] = val
             chan[col][r, c] = val
     flat = np.asarray(flat, dtype=float)
-    tol = 1e-11 * (np.max(np.abs(exp)) + 1e-300) + 1e-300
+    slack = np.max([qe_slack(d_, wave_nm) for d_ in case["qe"]], axis=0)
+    tol = 1e-11 * (np.max(np.abs(exp)) + 1e-300) + float(np.max(np.tensordot(slack, np.abs(np.asarray(img, dtype=float)), axes=1))) + 1e-300
     if flat.shape != exp.shape or np.max(np.abs(flat - exp)) > tol:
         bad = np.argwhere(np.abs(flat - exp) > tol)[:3].tolist() if flat.shape == exp.shape else flat.shape
         raise Violation("C16.bayer.mosaic", f"pattern {case['pattern']} oversample {os_} image {exp.shape}: wrong colour "
